@@ -2,10 +2,6 @@
 // (module documentation of symlink_stack.rs restated: one entry per symlink being resolved, holding the
 // (directory, remaining path) to report if the link turns out dangling, and the link's own components that
 // are still to be walked; "" and "." components are never recorded and never popped)
-use std::rc::Rc;
-use std::collections::VecDeque;
-pub assume_specification<T, A: core::alloc::Allocator>[VecDeque::<T, A>::is_empty](v: &VecDeque<T, A>) -> (r: bool)
-    ensures r == (v@.len() == 0);
 pub assume_specification<T, A: core::alloc::Allocator>[VecDeque::<T, A>::get_mut](v: &mut VecDeque<T, A>, i: usize) -> (r: Option<&mut T>)
     ensures
         i < old(v)@.len() ==> r is Some,
@@ -18,6 +14,8 @@ pub assume_specification<T, A: core::alloc::Allocator>[VecDeque::<T, A>::back](v
 
 pub open spec fn DOTC() -> Seq<u8> { seq![46u8] }
 pub open spec fn nontrivial(c: Seq<u8>) -> bool { c.len() > 0 && c != DOTC() }
+/// every saved directory is inside the root and close-on-exec (what do_resolve needs to hand one back)
+pub open spec fn all_ok(s: Seq<EntryV<OwnedFd>>) -> bool { forall|i: int| 0 <= i < s.len() ==> lineage((#[trigger] s[i]).dir.id()) && cloexec(s[i].dir.id()) }
 pub struct EntryV<F> { pub dir: Rc<F>, pub rem: Seq<u8>, pub parts: Seq<Seq<u8>> }
 pub enum PopV<F> { Popped(Seq<EntryV<F>>), EmptyStack, BrokenEmpty, BrokenWrong }
 pub open spec fn ss_push<F>(s: Seq<EntryV<F>>, dir: Rc<F>, rem: Seq<u8>, target: Seq<u8>) -> Seq<EntryV<F>> {
